@@ -72,7 +72,7 @@ package nodes
 // retraction is ever produced for a row that is not present. Other keys' remembered rows are untouched.
 //@ spec prevItem(t *btree.BTree, k int) *previouslySentValuesItem = tget(t, k, previouslySentValuesItem)
 //@ spec prevRI(t *btree.BTree) bool = addr(t) > 0 && forallK(k, thas(t, k) ==> ttag(t, k) == typeidptr(previouslySentValuesItem) && 0 < addr(prevItem(t, k)) && addr(prevItem(t, k)) < frontier() && cls(prevItem(t, k).GroupKey) == k)
-//@ spec aggRI(t *btree.BTree) bool = addr(t) > 0 && forallK(k, thas(t, k) ==> ttag(t, k) == typeidptr(aggregatesItem) && 0 < addr(tget(t, k, aggregatesItem)) && addr(tget(t, k, aggregatesItem)) < frontier())
+//@ spec aggRI(t *btree.BTree) bool = addr(t) > 0 && forallK(k, thas(t, k) ==> ttag(t, k) == typeidptr(aggregatesItem) && 0 < addr(tget(t, k, aggregatesItem)) && addr(tget(t, k, aggregatesItem)) < frontier() && cls(tget(t, k, aggregatesItem).GroupKey) == k)
 //@ func (*CustomTriggerGroupBy).trigger
 //@   requires prevRI(previouslySentValues) && aggRI(aggregates) && addr(previouslySentValues) != addr(aggregates)
 //@   loop 1 invariant ri: prevRI(previouslySentValues) && aggRI(aggregates) && len(OUT) >= old(len(OUT)) && len(OUTM) == old(len(OUTM))
@@ -83,9 +83,70 @@ package nodes
 //@   loop 1 step insert: thas(aggregates, cls(key)) ==> !lastOut().Retraction && thas(previouslySentValues, cls(key)) && prevItem(previouslySentValues, cls(key)).Values.base == lastOut().Values.base && prevItem(previouslySentValues, cls(key)).Values.off == lastOut().Values.off && prevItem(previouslySentValues, cls(key)).Values.len == lastOut().Values.len
 //@   loop 1 step forget: !thas(aggregates, cls(key)) ==> !thas(previouslySentValues, cls(key))
 //@   loop 1 step frame: forallK(k, k != cls(key) ==> thas(previouslySentValues, k) == old(thas(previouslySentValues, k)))
+// (C03) the emitted row: the group's key columns first, then per aggregate NULL if its set of non-NULL inputs is
+// empty, otherwise what that group's aggregate returns — asked exactly once
+//@   loop 2 invariant keycopy: len(outputValues) == len(key) + len(g.aggregateExprs) && forall(j, 0, len(key), same(outputValues[j], key[j]))
+//@   loop 2 step empty: itemTyped.AggregatedSetSize[i] <= 0 ==> outputValues[len(key)+i].TypeID == 0 && calls(Trigger) == old(calls(Trigger))
+//@   loop 2 step nonempty: itemTyped.AggregatedSetSize[i] > 0 ==> calls(Trigger) == old(calls(Trigger)) + 1 && lastrecv(Trigger) == itemTyped.Aggregates[i] && same(outputValues[len(key)+i], lastres(Trigger))
+//@   loop 1 step keycols: thas(aggregates, cls(key)) ==> len(lastOut().Values) == len(key) + len(g.aggregateExprs) && forall(j, 0, len(key), same(lastOut().Values[j], key[j]))
 //@   ensures polled: calls(Poll) == old(calls(Poll)) + 1
 //@   ensures ri: result == nil ==> prevRI(previouslySentValues) && aggRI(aggregates)
 //@   ensures nometa: len(OUTM) == old(len(OUTM))
+//@   ensures aggs: forallK(k, thas(aggregates, k) == old(thas(aggregates, k)))
+
+// C03 per-record accounting of a group (both group-by nodes): the group's record count moves by exactly +-1 and the
+// group exists afterwards iff that count is not zero; per aggregate, a NULL input is skipped entirely (neither the
+// set size nor the aggregate sees it) and a non-NULL input moves the set size by +-1 and is handed, with the
+// record's retraction flag, to that group's aggregate — exactly once; other aggregates' set sizes are untouched.
+//@ func (*CustomTriggerGroupBy).Run$lit1
+//@   loop 1 invariant keys: len(key) == len(g.keyExprs) && forall(j, 0, $k, same(key[j], evalVal(g.keyExprs[j], ctx)))
+//@   loop 2 invariant keys: len(key) == len(g.keyExprs) && forall(j, 0, len(g.keyExprs), same(key[j], evalVal(g.keyExprs[j], ctx)))
+//@   loop 4 step nullskip: aggregateInput.TypeID == 0 ==> itemTyped.AggregatedSetSize[i] == old(itemTyped.AggregatedSetSize[now(i)]) && calls(Add) == old(calls(Add))
+//@   loop 4 step counted: aggregateInput.TypeID != 0 ==> itemTyped.AggregatedSetSize[i] == wrap64(old(itemTyped.AggregatedSetSize[now(i)]) + ite(record.Retraction, 0 - 1, 1)) && calls(Add) == old(calls(Add)) + 1
+//@   loop 4 step handed: aggregateInput.TypeID != 0 ==> lastarg(Add, 0) == record.Retraction && same(lastarg(Add, 1), aggregateInput) && lastrecv(Add) == itemTyped.Aggregates[i]
+//@   loop 4 step input: same(aggregateInput, evalVal(g.aggregateExprs[i], ctx))
+//@   loop 4 step others: forall(j, 0, len(itemTyped.AggregatedSetSize), j != i ==> itemTyped.AggregatedSetSize[j] == old(itemTyped.AggregatedSetSize[j]))
+
+// C03 the hash group-by (no custom triggers): same per-record accounting; the final pass emits, per stored group, its
+// key columns followed per aggregate by NULL if the set of non-NULL inputs is empty, else the aggregate's value.
+//@ spec sgRI(m *hashmap.Map[GroupKey, *hashmapAggregatesItem]) bool = forallK(k, has(m, k) ==> 0 < addr(get(m, k)) && addr(get(m, k)) < frontier())
+//@ func (*SimpleGroupBy).Run
+//@   stream 1 invariant ri: sgRI(aggregates) && len(OUT) == 0 && len(OUTM) == len(INM)
+//@   stream 1 step IN silent: len(OUT) == old(len(OUT)) && len(OUTM) == old(len(OUTM))
+//@   stream 1 step IN count: stepErr == nil ==> L3_itemTyped.OverallRecordCount == wrap64(ite(old(has(aggregates, now(cls(L3_key)))), old(get(aggregates, now(cls(L3_key))).OverallRecordCount), 0) + ite(lastIn().Retraction, 0 - 1, 1)) && has(aggregates, cls(L3_key)) == (L3_itemTyped.OverallRecordCount != 0)
+//@   stream 1 step IN countframe: stepErr == nil ==> forallK(k, k != cls(L3_key) ==> has(aggregates, k) == old(has(aggregates, k)))
+//@   stream 1 step IN key: stepErr == nil ==> len(L3_key) == len(g.keyExprs) && forall(j, 0, len(g.keyExprs), same(L3_key[j], evalVal(g.keyExprs[j], L3_ctx)))
+//@   stream 1 step INM forward: stepErr == nil ==> len(OUTM) == old(len(OUTM)) + 1 && lastOutM() == lastInM() && len(OUT) == old(len(OUT))
+//@   ensures errprop: runErr != nil ==> result != nil
+//@ func (*SimpleGroupBy).Run$lit3
+//@   loop 1 invariant keys: len(key) == len(g.keyExprs) && forall(j, 0, $k, same(key[j], evalVal(g.keyExprs[j], ctx)))
+//@   loop 3 step nullskip: aggregateInput.TypeID == 0 ==> itemTyped.AggregatedSetSize[i] == old(itemTyped.AggregatedSetSize[now(i)]) && calls(Add) == old(calls(Add))
+//@   loop 3 step counted: aggregateInput.TypeID != 0 ==> itemTyped.AggregatedSetSize[i] == wrap64(old(itemTyped.AggregatedSetSize[now(i)]) + ite(record.Retraction, 0 - 1, 1)) && calls(Add) == old(calls(Add)) + 1
+//@   loop 3 step handed: aggregateInput.TypeID != 0 ==> lastarg(Add, 0) == record.Retraction && same(lastarg(Add, 1), aggregateInput) && lastrecv(Add) == itemTyped.Aggregates[i]
+//@   loop 3 step others: forall(j, 0, len(itemTyped.AggregatedSetSize), j != i ==> itemTyped.AggregatedSetSize[j] == old(itemTyped.AggregatedSetSize[j]))
+//@ func (*SimpleGroupBy).Run$lit5$lit2
+//@   loop 1 invariant keycopy: len(outputValues) == len(key) + len(g.aggregateExprs) && forall(j, 0, len(key), same(outputValues[j], key[j])) && len(OUT) == old(len(OUT))
+//@   loop 1 step empty: itemTyped.AggregatedSetSize[i] <= 0 ==> outputValues[len(key)+i].TypeID == 0 && calls(Trigger) == old(calls(Trigger))
+//@   loop 1 step nonempty: itemTyped.AggregatedSetSize[i] > 0 ==> calls(Trigger) == old(calls(Trigger)) + 1 && lastrecv(Trigger) == itemTyped.Aggregates[i] && same(outputValues[len(key)+i], lastres(Trigger))
+//@   ensures row: len(OUT) == old(len(OUT)) + 1 && !lastOut().Retraction && len(lastOut().Values) == len(key) + len(g.aggregateExprs) && forall(j, 0, len(key), same(lastOut().Values[j], key[j]))
+
+// C09/C03/C15: the equality and hash functions handed to the hash maps of DISTINCT and the hash group-by: equality is
+// elementwise Compare == 0 (NULL equals NULL here: one group / one distinct row for NULL keys), the hash is
+// HashManyValues — which agrees on equal keys (octosql.manyHashConsistent). The key tuples of one map have one length.
+//@ func (*Distinct).Run$lit1
+//@   requires len(a) == len(b) && validVs(a) && validVs(b)
+//@   loop 1 invariant prefix: 0 <= $k && $k <= len(a) && forall(j, 0, $k, cmp(a[j], b[j]) == 0)
+//@   ensures eq: result == forall(j, 0, len(a), cmp(a[j], b[j]) == 0)
+//@ func (*Distinct).Run$lit2
+//@   requires validVs(k)
+//@   ensures hash: result == hfold(14695981039346656037, k, len(k))
+//@ func (*SimpleGroupBy).Run$lit1
+//@   requires len(a) == len(b) && validVs(a) && validVs(b)
+//@   loop 1 invariant prefix: 0 <= $k && $k <= len(a) && forall(j, 0, $k, cmp(a[j], b[j]) == 0)
+//@   ensures eq: result == forall(j, 0, len(a), cmp(a[j], b[j]) == 0)
+//@ func (*SimpleGroupBy).Run$lit2
+//@   requires validVs(k)
+//@   ensures hash: result == hfold(14695981039346656037, k, len(k))
 
 // C17/C06/C18 CustomTriggerGroupBy.Run, for every history and every Trigger implementation (interface calls are counted
 // by ghost counters calls(Method)): every record is reported to the trigger exactly once (also a retraction that
@@ -97,6 +158,9 @@ package nodes
 //@   stream 1 step IN keyreceived: stepErr == nil ==> calls(KeyReceived) == old(calls(KeyReceived)) + 1
 //@   stream 1 step IN round: stepErr == nil ==> calls(Poll) == old(calls(Poll)) + 1
 //@   stream 1 step IN nometa: len(OUTM) == old(len(OUTM))
+//@   stream 1 step IN count: stepErr == nil ==> L1_itemTyped.OverallRecordCount == wrap64(ite(old(thas(aggregates, now(cls(L1_key)))), old(tget(aggregates, now(cls(L1_key)), aggregatesItem).OverallRecordCount), 0) + ite(lastIn().Retraction, 0 - 1, 1)) && thas(aggregates, cls(L1_key)) == (L1_itemTyped.OverallRecordCount != 0)
+//@   stream 1 step IN countframe: stepErr == nil ==> forallK(k, k != cls(L1_key) ==> thas(aggregates, k) == old(thas(aggregates, k)))
+//@   stream 1 step IN key: stepErr == nil ==> len(L1_key) == len(g.keyExprs) && forall(j, 0, len(g.keyExprs), same(L1_key[j], evalVal(g.keyExprs[j], L1_ctx)))
 //@   stream 1 step INM watermark: stepErr == nil && lastInM().Type == 0 ==> calls(WatermarkReceived) == old(calls(WatermarkReceived)) + 1 && calls(Poll) == old(calls(Poll)) + 1
 //@   stream 1 step INM order: stepErr == nil ==> callsAtLastMeta(Poll) == calls(Poll) && callsAtLastMeta(WatermarkReceived) == calls(WatermarkReceived) && outAtLastMeta() == len(OUT)
 //@   stream 1 step INM forward: stepErr == nil ==> len(OUTM) == old(len(OUTM)) + 1 && lastOutM() == lastInM()
@@ -148,3 +212,22 @@ package nodes
 //@ func NewOrderSensitiveTransform
 //@   requires prunesafe: noRetractionsPossible ==> appendOnly(source)
 //@   ensures built: result != nil
+
+// C09/C05: the order of the ORDER BY container: lexicographic in Compare over the sort key, each column's result
+// multiplied by its direction, then over the row's values — a strict weak order whose equivalence is "all key and
+// value columns Compare-equal" (so duplicates, and only duplicates, share an item and are counted).
+//@ spec obValid(p *orderByItem) bool = addr(p) > 0 && validVs(p.Key) && validVs(p.Values) && len(p.DirectionMultipliers) == len(p.Key) && forall(j, 0, len(p.Key), p.DirectionMultipliers[j] == 1 || p.DirectionMultipliers[j] == 0 - 1)
+//@ spec obCompat(p *orderByItem, q *orderByItem) bool = len(p.Key) == len(q.Key) && len(p.Values) == len(q.Values) && forall(j, 0, len(p.Key), p.DirectionMultipliers[j] == q.DirectionMultipliers[j])
+//@ func (*orderByItem).Less
+//@   requires itag(than) == typeidptr(orderByItem) && obValid(item) && obValid(asptr(than, orderByItem)) && obCompat(item, asptr(than, orderByItem))
+//@   pure
+//@   loop 1 invariant keys: 0 <= i && i <= len(item.Key) && forall(j, 0, i, cmp(item.Key[j], thanTyped.Key[j]) == 0)
+//@   loop 2 invariant values: 0 <= i && i <= len(item.Values) && forall(j, 0, len(item.Key), cmp(item.Key[j], thanTyped.Key[j]) == 0) && forall(j, 0, i, cmp(item.Values[j], thanTyped.Values[j]) == 0)
+//@   ensures lex.key: forall(p, 0, len(item.Key), forall(j, 0, p, cmp(item.Key[j], asptr(than, orderByItem).Key[j]) == 0) && cmp(item.Key[p], asptr(than, orderByItem).Key[p]) != 0 ==> result == (cmp(item.Key[p], asptr(than, orderByItem).Key[p]) * item.DirectionMultipliers[p] == 0 - 1))
+//@   ensures lex.values: forall(j, 0, len(item.Key), cmp(item.Key[j], asptr(than, orderByItem).Key[j]) == 0) ==> forall(p, 0, len(item.Values), forall(j, 0, p, cmp(item.Values[j], asptr(than, orderByItem).Values[j]) == 0) && cmp(item.Values[p], asptr(than, orderByItem).Values[p]) != 0 ==> result == (cmp(item.Values[p], asptr(than, orderByItem).Values[p]) == 0 - 1))
+//@   ensures lex.equal: forall(j, 0, len(item.Key), cmp(item.Key[j], asptr(than, orderByItem).Key[j]) == 0) && forall(j, 0, len(item.Values), cmp(item.Values[j], asptr(than, orderByItem).Values[j]) == 0) ==> !result
+//@ lemma obIrrefl(a *orderByItem)
+//@   requires obValid(a)
+//@   ensures irreflexive: !a.Less(a)
+//@   use cmpRefl(a.Key[exit(a.Less(a), "i", 1)])
+//@   use cmpRefl(a.Values[exit(a.Less(a), "i", 2)])
